@@ -687,11 +687,16 @@ func main() {
 		viaMsg := r.Intn(3) == 0
 		atk, squatted := "", -1
 		if viaMsg {
-			switch r.Intn(3) {
+			switch r.Intn(4) {
 			case 0:
 				atk = "non-member"
-			case 1:
+			case 1, 2:
+				// a key under a real member's id: before the member's own announcement (it stays), or
+				// after it (it must be ignored: the first key received for an id stays)
 				atk = "squatted-id"
+				if r.Bool() {
+					atk = "overwrite"
+				}
 				squatted = 1 + r.Intn(n-1)
 				if squatted == unknownMember {
 					unknownMember = -1
@@ -719,6 +724,9 @@ func main() {
 		}
 		if atk == "non-member" {
 			register(outsiderID, outsiderKey)
+		}
+		if atk == "overwrite" {
+			register(g.ids[squatted], squatKey)
 		}
 		// read the table back from the node's record
 		type regEntry struct{ id, sk *big.Int }
@@ -892,7 +900,7 @@ func main() {
 			m.rsig = valPoint(groupsig.Sign(mkSec(outsiderKey), preRandom), single(prIdx, outsiderKey))
 			msgs = append(msgs, m)
 		}
-		if atk == "squatted-id" {
+		if atk == "squatted-id" || atk == "overwrite" {
 			m := mk("squatter", squatted)
 			m.sig = valPoint(groupsig.Sign(mkSec(squatKey), bhHash.Bytes()), single(iBH, squatKey))
 			m.rsig = valPoint(groupsig.Sign(mkSec(squatKey), preRandom), single(prIdx, squatKey))
